@@ -54,6 +54,167 @@ type World struct {
 	Mute   bool // do not log reads (keeps long runs small)
 	OnStmt func(host, op, arg string) // hook called (without lock) before a statement is executed
 	OnDcs  func(client, op, path, res string) // hook called WITH the lock held when a coordination call is logged
+	// cluster simulation: which mysync dials (by the port it uses), which machine pairs cannot talk
+	PortOwner map[string]string
+	Cut       map[[2]string]bool
+	NetTimeout time.Duration                     // > 0: slave_net_timeout semantics for the IO thread state (cluster simulation)
+	replRound  int
+	AckPick    func(n int) int                   // chooses which acknowledging replicas receive a transaction at once (nil = all)
+	DeadProcs map[string]bool                    // killed mysync processes: nothing they still send has any effect
+	OnStmtBy  func(by, host, op, arg string)     // like OnStmt, with the issuing mysync (called without the lock)
+	Acked     []Txn // workload log
+}
+
+// Txn is one client transaction of the workload.
+type Txn struct {
+	Gtid string `json:"gtid"`
+	Host string `json:"host"`
+	Res  string `json:"res"` // "acked" | "pending" (written to the binlog, never acknowledged) | "refused"
+	T    int64  `json:"t"`
+	Ackers []string `json:"ackers,omitempty"`
+}
+
+func pair(a, b string) [2]string {
+	if a > b {
+		a, b = b, a
+	}
+	return [2]string{a, b}
+}
+
+// Blocked: the machines a and b cannot exchange packets (lock held).
+func (w *World) Blocked(a, b string) bool {
+	return a != "" && b != "" && a != b && w.Cut[pair(a, b)]
+}
+
+// Isolate cuts (or heals) every link of host.
+func (w *World) Isolate(host string, cut bool) {
+	w.Mu.Lock()
+	defer w.Mu.Unlock()
+	if w.Cut == nil {
+		w.Cut = map[[2]string]bool{}
+	}
+	for h := range w.Nodes {
+		if h != host {
+			if cut {
+				w.Cut[pair(host, h)] = true
+			} else {
+				delete(w.Cut, pair(host, h))
+			}
+		}
+	}
+	w.logEv("env", host, map[bool]string{true: "isolate", false: "heal"}[cut], "", "ok")
+}
+
+// Revive restarts a killed server with the start-up configuration of the project's images:
+// read_only, super_read_only, offline_mode ON, semi-sync roles off, binary log (executed set) kept.
+func (w *World) Revive(host string) {
+	w.Mu.Lock()
+	defer w.Mu.Unlock()
+	n := w.Nodes[host]
+	if n == nil {
+		return
+	}
+	n.Alive, n.Hang = true, false
+	n.ReadOnly, n.SuperReadOnly, n.Offline = true, true, true
+	n.SemiMaster, n.SemiSlave, n.WaitingAck = false, false, false
+	n.StartupUnix = time.Now().Unix()
+	if n.Repl != nil {
+		n.Repl.IO, n.Repl.SQL = true, true // replication threads start with the server
+	}
+	w.logEv("env", host, "revive", "", "ok")
+}
+
+// Replicate moves data along every healthy replication link once (lock NOT held).
+func (w *World) Replicate() {
+	w.Mu.Lock()
+	defer w.Mu.Unlock()
+	w.replRound++
+	for _, n := range w.Nodes {
+		if n.Alive {
+			if n.Slow > 0 {
+				w.trackLink(n)
+				if w.replRound%n.Slow != 0 {
+					continue
+				}
+				n.InstantRepl = true
+				w.progress(n)
+				n.InstantRepl = false
+				continue
+			}
+			w.progress(n)
+		}
+	}
+}
+
+func nextGtid(executed, uuid string) string {
+	next := int64(1)
+	for _, part := range strings.Split(executed, ",") {
+		part = strings.TrimSpace(part)
+		if !strings.HasPrefix(strings.ToLower(part), strings.ToLower(uuid)+":") {
+			continue
+		}
+		for _, iv := range strings.Split(part[len(uuid)+1:], ":") {
+			ab := strings.Split(iv, "-")
+			hi, err := strconv.ParseInt(ab[len(ab)-1], 10, 64)
+			if err == nil && hi+1 > next {
+				next = hi + 1
+			}
+		}
+	}
+	return fmt.Sprintf("%s:%d", uuid, next)
+}
+
+// ClientWrite is one client transaction sent to host (lock NOT held): refused unless the server is up and
+// writable; otherwise written to its binary log and — with semi-sync on — acknowledged only when
+// wait_for_slave_count semi-sync replicas that replicate from it over a working link have received it
+// (time-out infinite, wait_no_slave ON, AFTER_SYNC, as in the project's configuration).
+func (w *World) ClientWrite(host string) Txn {
+	w.Mu.Lock()
+	defer w.Mu.Unlock()
+	n := w.Nodes[host]
+	t := Txn{Host: host, T: w.now(), Res: "refused"}
+	if n == nil || !n.Alive || n.Hang || n.ReadOnly || n.SuperReadOnly || n.Offline {
+		w.Acked = append(w.Acked, t)
+		return t
+	}
+	t.Gtid = nextGtid(n.Executed, n.UUID)
+	n.Executed = gtidUnion(n.Executed, t.Gtid)
+	var ackers, receivers []*MyNode
+	for _, r := range w.Nodes {
+		if r != n && r.Alive && !r.Hang && r.Repl != nil && r.Repl.IO && r.Repl.Source == host && !w.Blocked(r.Host, host) {
+			receivers = append(receivers, r)
+			if r.SemiSlave {
+				ackers = append(ackers, r)
+			}
+		}
+	}
+	if n.SemiMaster && len(ackers) < n.WaitCount {
+		t.Res = "pending"
+		n.WaitingAck = true
+	} else {
+		t.Res = "acked"
+		if n.SemiMaster {
+			// the master returns as soon as wait_for_slave_count replicas have acknowledged: the adversarial minimum is
+			// that exactly these have the transaction now; everybody else gets it when replication moves
+			sort.Slice(ackers, func(i, j int) bool { return ackers[i].Host < ackers[j].Host })
+			chosen := ackers
+			if w.AckPick != nil && len(ackers) > n.WaitCount {
+				k := w.AckPick(len(ackers))
+				chosen = nil
+				for i := 0; i < n.WaitCount; i++ {
+					chosen = append(chosen, ackers[(k+i)%len(ackers)])
+				}
+			}
+			for _, r := range chosen {
+				r.Retrieved = gtidUnion(r.Retrieved, t.Gtid)
+				t.Ackers = append(t.Ackers, r.Host)
+			}
+			sort.Strings(t.Ackers)
+		}
+		_ = receivers
+	}
+	w.Acked = append(w.Acked, t)
+	return t
 }
 
 type Repl struct {
@@ -94,6 +255,8 @@ type MyNode struct {
 	Conns                            int // open connections (leak accounting)
 	TotalConns                       int
 	Killed                           []int
+	SrcLostAt                        time.Time // when the replication link to the source stopped working (NetTimeout > 0)
+	Slow                             int       // > 0: replication moves only every Slow-th Replicate() round (lagging replica)
 }
 
 var (
@@ -188,8 +351,14 @@ func (w *World) matchFault(host, op string) string {
 }
 
 func (w *World) dial(ctx context.Context, addr string) (net.Conn, error) {
-	host, _, _ := net.SplitHostPort(addr)
+	host, port, _ := net.SplitHostPort(addr)
 	w.Mu.Lock()
+	from := w.PortOwner[port]
+	if w.Blocked(from, host) || w.DeadProcs[from] {
+		w.Mu.Unlock()
+		<-ctx.Done() // packets are dropped: the dial times out
+		return nil, &net.OpError{Op: "dial", Net: "tcp", Err: fmt.Errorf("i/o timeout (fake partition %s-%s)", from, host)}
+	}
 	n := w.Nodes[host]
 	if n == nil || !n.Alive {
 		w.Mu.Unlock()
@@ -206,7 +375,7 @@ func (w *World) dial(ctx context.Context, addr string) (net.Conn, error) {
 	}
 	n.conns[s] = true
 	w.Mu.Unlock()
-	go w.serve(n, s)
+	go w.serve(n, s, from)
 	return c, nil
 }
 
@@ -214,8 +383,9 @@ func (w *World) dial(ctx context.Context, addr string) (net.Conn, error) {
 // wire protocol
 
 type pconn struct {
-	c   net.Conn
-	seq byte
+	c    net.Conn
+	seq  byte
+	from string // the mysync (machine) that opened the connection, when known
 }
 
 func (p *pconn) readPacket() ([]byte, error) {
@@ -304,7 +474,7 @@ func (p *pconn) resultset(cols []string, rows [][]string) error {
 	return p.eof()
 }
 
-func (w *World) serve(n *MyNode, c net.Conn) {
+func (w *World) serve(n *MyNode, c net.Conn, from string) {
 	defer func() {
 		c.Close()
 		w.Mu.Lock()
@@ -312,7 +482,7 @@ func (w *World) serve(n *MyNode, c net.Conn) {
 		delete(n.conns, c)
 		w.Mu.Unlock()
 	}()
-	p := &pconn{c: c}
+	p := &pconn{c: c, from: from}
 	// handshake v10
 	hs := []byte{0x0a}
 	hs = append(hs, "8.0.36-fake\x00"...)
@@ -522,6 +692,9 @@ func gtidUnion(a, b string) string {
 	return sa.String()
 }
 
+// GtidUnion returns the union of two GTID set texts.
+func GtidUnion(a, b string) string { return gtidUnion(a, b) }
+
 // GtidContains reports a ⊇ b.
 func GtidContains(a, b string) bool {
 	sa, err1 := gomysql.ParseMysqlGTIDSet(a)
@@ -534,12 +707,32 @@ func GtidContains(a, b string) bool {
 
 // progress applies replication progress to n (lock held): the IO thread downloads what the source
 // has executed, the SQL thread applies what was downloaded.
+// linkUp: the replication link of n to its source works (lock held)
+func (w *World) linkUp(n *MyNode) bool {
+	if n.Repl == nil {
+		return false
+	}
+	src := w.Nodes[n.Repl.Source]
+	return src != nil && src.Alive && !src.Hang && !w.Blocked(n.Host, src.Host)
+}
+
+func (w *World) trackLink(n *MyNode) {
+	if n.Repl != nil && w.NetTimeout > 0 {
+		if w.linkUp(n) {
+			n.SrcLostAt = time.Time{}
+		} else if n.SrcLostAt.IsZero() {
+			n.SrcLostAt = time.Now()
+		}
+	}
+}
+
 func (w *World) progress(n *MyNode) {
+	w.trackLink(n)
 	if n.Repl == nil || !n.InstantRepl {
 		return
 	}
 	if n.Repl.IO {
-		if src := w.Nodes[n.Repl.Source]; src != nil && src.Alive && !src.Hang {
+		if src := w.Nodes[n.Repl.Source]; src != nil && src.Alive && !src.Hang && !w.Blocked(n.Host, src.Host) {
 			n.Retrieved = gtidUnion(n.Retrieved, src.Executed)
 		}
 	}
@@ -568,10 +761,13 @@ func (w *World) query(n *MyNode, p *pconn, q string, done chan struct{}) bool {
 	if hook := w.OnStmt; hook != nil {
 		hook(n.Host, op, arg)
 	}
+	if hook := w.OnStmtBy; hook != nil && op != "version" && op != "lock_timeout" {
+		hook(p.from, n.Host, op, arg)
+	}
 	w.Mu.Lock()
 	if op == "version" || op == "lock_timeout" {
 		// plumbing statements: never faulted, never logged (canonicalisation, DESIGN §4.2)
-		hang := n.Hang
+		hang := n.Hang || w.Blocked(p.from, n.Host) || w.DeadProcs[p.from]
 		w.Mu.Unlock()
 		if hang {
 			<-done
@@ -583,7 +779,7 @@ func (w *World) query(n *MyNode, p *pconn, q string, done chan struct{}) bool {
 		return p.ok() == nil
 	}
 	mode := w.matchFault(n.Host, op)
-	if n.Hang && mode == "" {
+	if (n.Hang || w.Blocked(p.from, n.Host) || w.DeadProcs[p.from]) && mode == "" {
 		mode = "hang"
 	}
 	if n.RefuseCode != 0 && mode == "" {
@@ -592,6 +788,7 @@ func (w *World) query(n *MyNode, p *pconn, q string, done chan struct{}) bool {
 	logIt := func(res string) {
 		if !(w.Mute && !mutating[op]) {
 			w.logEv("sql", n.Host, op, arg, res)
+			w.Log[len(w.Log)-1].By = p.from
 		}
 	}
 	fail := func(m string) bool { // m = "err:<code>" / "lost:<code>"
@@ -675,7 +872,19 @@ func (w *World) apply(n *MyNode, op, arg string) (cols []string, rows [][]string
 		if lf == "" {
 			lf = "mysql-bin.000001"
 		}
-		return one(c, []string{r.Source, "3306", lf, strconv.FormatInt(r.LogPos, 10), yesno(r.IO), yesno(r.SQL), "",
+		ioState := yesno(r.IO)
+		if r.IO && w.NetTimeout > 0 && !w.linkUp(n) {
+			// the IO thread of a replica whose source is gone is 'Connecting': at once when the source's
+			// server is down (connection reset), after slave_net_timeout when packets are silently dropped
+			src := w.Nodes[r.Source]
+			if src == nil || !src.Alive || time.Since(n.SrcLostAt) >= w.NetTimeout {
+				ioState = "Connecting"
+				if r.Lag == nil {
+					lag = NULL
+				}
+			}
+		}
+		return one(c, []string{r.Source, "3306", lf, strconv.FormatInt(r.LogPos, 10), ioState, yesno(r.SQL), "",
 			n.Retrieved, n.Executed, strconv.Itoa(r.IOErrno), "", strconv.Itoa(r.SQLErrno), lag})
 	case "gtid_executed":
 		return one([]string{"Executed_Gtid_Set"}, []string{n.Executed})
